@@ -52,6 +52,7 @@ func init() {
 		e.RResolvePath()
 		e.RCarry()
 		e.RResolverFile()
+		e.RFileOf()
 		e.RResolverClauses()
 		e.RResolverErrorsFirst()
 		e.RErr(e.pkgs(load.PkgDecorator, load.PkgGoast, load.PkgGotypes), 85)
